@@ -50,6 +50,30 @@ def seeds(rng, kind):
             img, winfo = RB.wrap_ivfc(lv3, block_log2=rng.choice([9, 12]))
             f2 = winfo['fields'] + [(o + winfo['lv3_offset'], w, d) for o, w, d in info['fields']]
             out.append((f'ivfc#{t}', img, f2, False, None))
+        # structured multi-field retargetings: every directory is BOTH first child and next sibling of its predecessor (a DAG with 2^n
+        # paths), a two-entry sibling cycle, a child pointing at its own parent
+        n = 48
+        tree = {'d%02d' % i: {} for i in range(n)}
+        lv3, info = RB.pack_lv3(tree)
+        offs = [info['dirs']['/d%02d' % i] for i in range(n)]
+        dm = next(o for o, w, d in info['fields'] if d == 'hdr.dirmeta.offset')
+        dirmeta_off = int.from_bytes(lv3[dm:dm + 4], 'little')
+
+        def put(b, entry, field, value):
+            b[dirmeta_off + entry + field:dirmeta_off + entry + field + 4] = value.to_bytes(4, 'little')
+        b = bytearray(lv3)
+        put(b, 0, 8, offs[0])
+        for i in range(n - 1):
+            put(b, offs[i], 4, offs[i + 1])
+            put(b, offs[i], 8, offs[i + 1])
+        out.append(('lv3-dag', bytes(b), [], False, None))
+        b = bytearray(lv3)
+        put(b, offs[0], 4, offs[1])
+        put(b, offs[1], 4, offs[0])
+        out.append(('lv3-cycle2', bytes(b), [], False, None))
+        b = bytearray(lv3)
+        put(b, offs[3], 8, 0)
+        out.append(('lv3-child-is-root', bytes(b), [], False, None))
     elif kind == 'exefs':
         for t in range(2):
             files = [(nm, pyenv.rbytes(rng, rng.choice([0, 5, 0x200, 0x233]))) for nm in rng.sample(['.code', 'icon', 'banner', 'logo', 'x'], rng.randrange(1, 5))]
